@@ -287,6 +287,59 @@ theorem apparent_minus_mean_under_1_2s_partial (j : ℝ) (h1 : -20 ≤ (j - 2451
       < 1.2 / 86400 :=
   SiderealApparent.apparent_minus_mean_lt_1_2s j h1 h2
 
+/-- `get_doy` raises ValueError exactly as documented for a day below 1 or from 32 on, or a month outside 1..12 —
+    for every year and every rational day -/
+theorem doy_refuses_out_of_range (y m : Int) (d : ℚ) (h : d < 1 ∨ 32 ≤ d ∨ m < 1 ∨ 12 < m) :
+    get_doy y m d = .error .valueError := by
+  unfold get_doy
+  have : (plt d 1.0 || ple 32.0 d || decide (m < 1) || decide (m > 12)) = true := by
+    simp only [plt, ple, Bool.or_eq_true, decide_eq_true_eq]
+    rcases h with h | h | h | h
+    · left; left; left; norm_num; exact h
+    · left; left; right; norm_num; exact h
+    · left; right; exact h
+    · right; exact h
+  simp only [this, if_true]
+
+/-- a day past the end of the month is refused in both branches (formula branch ≤ 1582, datetime branch after):
+    30 February 1500, 29 February 1900, 31 April 2001 -/
+theorem doy_refuses_day_past_month_end :
+    get_doy 1500 2 30 = .error .valueError ∧ get_doy 1900 2 29 = .error .valueError ∧
+    get_doy 2001 4 31 = .error .valueError ∧ get_doy 1500 2 29 = .ok 60 ∧ get_doy 10000 1 1 = .error .valueError := by
+  decide +kernel
+
+/-- the divisor of the fractional year follows the leap rule of the calendar IN FORCE: 1500 (Julian leap year, not a
+    Gregorian one) has 366 days, 1900 has 365 -/
+theorem year_divisor_follows_calendar :
+    year (compute_jde 1500 12 31) = .ok (1500 + 365 / 366) ∧ year (compute_jde 1900 12 31) = .ok (1900 + 364 / 365) ∧
+    year (compute_jde 1582 12 31) = .ok (1582 + 354 / 365) := by
+  decide +kernel
+
+/-- the 0h branch reduces too: at 2000-01-01 0h UT the unreduced 0h value is 1.2777 and the result is below 1 -/
+theorem gmst_0h_is_reduced : 1 ≤ theta0 2451544.5 ∧ mean_sidereal_time 2451544.5 = theta0 2451544.5 - 1 := by
+  decide +kernel
+
+/-- the "at 0h" shortcut of the code is an absolute 1e-10 day: one second after 0h the rate term is applied -/
+theorem gmst_one_second_after_0h :
+    mean_sidereal_time (2451544.5 + 1 / 86400) = Int.fract (theta0 2451544.5 + 1 / 86400 * 1.00273790935) := by
+  rw [mean_sidereal_time_eq]
+  have hu : ut0 (2451544.5 + 1 / 86400) = 2451544.5 := by
+    unfold ut0
+    have : ⌊(2451544.5 + 1 / 86400 : ℚ) - 1 / 2⌋ = 2451544 := by rw [Int.floor_eq_iff]; norm_num
+    rw [this]; norm_num
+  rw [hu]
+  have : ¬ |(2451544.5 + 1 / 86400 : ℚ) - 2451544.5| < 1e-10 := by norm_num [abs_of_pos]
+  simp only [this, if_false]
+  norm_num
+
+/-- weekday names: `dow(as_string=True)` is the name of `dow()` -/
+theorem dow_str_is_name (j : ℚ) : dow_str j = day_names.getD (dow j).toNat "" ∧ dow_str j ∈ day_names := by
+  refine ⟨rfl, ?_⟩
+  unfold dow_str
+  obtain ⟨h0, h7⟩ := dow_range j
+  have : (dow j).toNat < 7 := by omega
+  interval_cases h : (dow j).toNat <;> simp [day_names]
+
 -- Non-vacuity: the hypotheses are met by concrete, non-trivial inputs.
 example : Valid 1582 10 15 ∧ weekdayGregorian 1582 10 15 = 5 ∧ weekdayGregorian 2000 1 1 = 6 := by decide
 example : Valid 1500 2 29 ∧ Valid (-4712) 12 31 ∧ Valid 1582 12 31 ∧ Valid 2000 2 29 := by decide
